@@ -265,3 +265,25 @@ PROPS["C08"] = {
                           "rank_rating_then_length", "rank_content_vs_function"], "thorough": []},
                CMP_LEMMA],
 }
+
+PROPS["C04"] = {
+    "assumptions": WORD_ASSUME + ["glue (NOT solver-decided, DESIGN §5 C04): given that both pre-filters accept and the distance of the full pair is within the "
+                                  "threshold, the matcher's scan visits the full-length pair (rslice = |r|, qslice = |q|, lengths differ by at most one) and "
+                                  "records a match; the scan itself is decided only for words up to 3 letters (WM-contract, WM-prefix)"],
+    "outside": "the composed word_match on words of >= 4 letters (> 40 GB, F14) - so 'the record is found' is NOT decided end to end; words longer than 6 letters; "
+               "index / text level as for C03",
+    "lemmas": [
+        {"id": "WM-gates-typo", "text": "title word of n letters (>= 3 distinct, letter classes), finished query = ONE edit of it at a symbolic position "
+                                        "(substitution by a different letter / insertion / deletion / adjacent transposition): the REAL length_check and "
+                                        "jaccard_check both accept",
+         "bounds": "n in {5,6}, edit kind and position from the instance names / symbolic; all chars and classes symbolic",
+         "opts": {"unwind": 9, "timeout": 3000, "checks": "functional", "mem_gb": 10},
+         "quick": ["wm_gtypo_5_del", "wm_gtypo_5_tr"],
+         "thorough": ["wm_gtypo_5_sub", "wm_gtypo_5_ins", "wm_gtypo_6_sub", "wm_gtypo_6_ins", "wm_gtypo_6_del", "wm_gtypo_6_tr"]},
+        {"id": "DL-typo", "text": "for the same pairs the REAL DamerauLevenshtein::distance is at most 1, its ratio to the longer length is within the matcher's "
+                                  "threshold 0.21, and the matrix cell the matcher reads for the full pair holds that distance",
+         "bounds": "n in {5,6}; all chars and (letter) classes symbolic", "opts": {"unwind": 9, "timeout": 3000, "checks": "functional", "mem_gb": 12},
+         "quick": ["wm_dtypo_5_tr"], "thorough": ["wm_dtypo_5_sub", "wm_dtypo_5_ins", "wm_dtypo_5_del", "wm_dtypo_6_sub", "wm_dtypo_6_del", "wm_dtypo_6_tr"],
+         "per_instance": {"wm_dtypo_6_sub": {"mem_gb": 24, "timeout": 3600}, "wm_dtypo_6_del": {"mem_gb": 24, "timeout": 3600}, "wm_dtypo_6_tr": {"mem_gb": 24, "timeout": 3600}}},
+    ],
+}
